@@ -315,6 +315,9 @@ func checkC06(c *Ctx) error {
 			continue
 		}
 		if res.Accepted() {
+			if !c.ConfirmBudget() {
+				continue
+			}
 			cli, _ := c.ConfirmCLI(dirs[i])
 			if !cli.Accepted() {
 				r.Inconclusive("in-process and CLI verdicts differ for " + cs.id)
